@@ -440,6 +440,26 @@ def named_skips(rep, tier, seed):
             if rep.violation("named_skip:%s:%s:%s" % (what, pos, dname), {"what": what, "position": pos, "declared": dname, "config": c["config"], "input": c["text"], "out": out, "expected_bytes": needle},
                              "the %s named by rustfmt::skip::%s (%s, name declared at %s) does not keep its bytes: %r" % ("attribute" if what == "attributes" else "macro call", what, pos, dname, needle)):
                 found += 1
+    # skip-marked parts of LISTS whose layout an option re-aligns: fields of struct literals / definitions, enum variants, match arms
+    ALIGN = [("lit_mid", "fn f() {\n    let v = Foo {\n        a: 1,\n        #[rustfmt::skip]\n        matrix_field: [1,0,\n                       0,1],\n        long_field_name: 2,\n    };\n}\n", "matrix_field: [1,0,\n                       0,1]"),
+             ("lit_last", "fn f() {\n    let v = Foo {\n        a: 1,\n        long_field_name: 2,\n        #[rustfmt::skip]\n        matrix_field: [1,0,\n                       0,1],\n    };\n}\n", "matrix_field: [1,0,\n                       0,1]"),
+             ("def_mid", "struct S {\n    a: u8,\n    #[rustfmt::skip]\n    matrix_field :   [u8;\n        4],\n    long_field_name: u8,\n}\n", "matrix_field :   [u8;\n        4]"),
+             ("enum_mid", "enum E {\n    A = 1,\n    #[rustfmt::skip]\n    Skipped   =   2,\n    LongVariantName = 3,\n}\n", "Skipped   =   2"),
+             ("arm_mid", "fn f() {\n    match x {\n        1 => a(),\n        #[rustfmt::skip]\n        2   =>   b( ),\n        _ => c(),\n    }\n}\n", "2   =>   b( )")]
+    acases, ameta = [], []
+    for nm, text, needle in ALIGN:
+        for cfgx in ([], [["struct_field_align_threshold", "20"]], [["enum_discrim_align_threshold", "20"]], [["struct_field_align_threshold", "40"], ["enum_discrim_align_threshold", "40"], ["match_arm_leading_pipes", "Always"]],
+                     [["struct_lit_single_line", "false"], ["struct_field_align_threshold", "20"]]):
+            acases.append({"text": text, "config": cfgx, "again": False, "lex": False})
+            ameta.append((nm, needle))
+    for (nm, needle), c, r in zip(ameta, acases, common.run_vh_pool("pool", acases, per_case_timeout=15)):
+        if not isinstance(r, dict) or not r.get("out"):
+            continue
+        n += 1
+        if needle not in r["out"]:
+            if rep.violation("aligned_list_skip:%s" % nm, {"form": nm, "config": c["config"], "input": c["text"], "out": r["out"], "expected_bytes": needle},
+                             "a skip-marked member of a list (%s) under %r does not keep its bytes: %r" % (nm, c["config"], needle)):
+                found += 1
     rep.coverage["named_skip_runs_judged"] = n
     rep.coverage["named_skip_rule"] = "a badly laid-out attribute #[custom(..)] at %d positions (top-level / impl / trait items, statements directly in a function, in a closure body, in a block expression, in a match arm, in an impl method, fields, variants, nested modules) with rustfmt::skip::attributes(custom) declared at crate level, on an enclosing module, function or impl; a badly laid-out call custom_mac!(..) at %d positions with the name declared by rustfmt::skip::macros at crate level / an enclosing module / the enclosing item, or by skip_macro_invocations (the name, or *); two widths: the bytes must reappear" % (len(NAMED_ATTR_POS), len(NAMED_MAC_POS))
     return found
@@ -460,6 +480,10 @@ def whole_file(rep):
         "disable_all_formatting": (ugly, ["--config", "disable_all_formatting=true"], []),
         "ignore": (ugly, [], ['ignore = ["NAME"]\n']),
         "generated": ("// @generated\n" + ugly, ["--config", "format_generated_files=false"], []),
+        # the marker on the LAST line that is searched (generated_marker_line_search_limit, 5 by default), not at the start of its line
+        "generated_on_line_5": ("// Copyright\n// Licence line two\n// line three\n// line four\n  // this file is @generated by a tool\n" + ugly, ["--config", "format_generated_files=false"], []),
+        "generated_on_line_3_limit_3": ("// a\n// b\n/* x */ /* @generated */\n" + ugly, ["--config", "format_generated_files=false,generated_marker_line_search_limit=3"], []),
+        "generated_on_line_1_limit_1": ("  /* @generated */\n" + ugly, ["--config", "format_generated_files=false,generated_marker_line_search_limit=1"], []),
     }
     env = common.rust_env()
     env.pop("CARGO_TARGET_DIR", None)
@@ -490,6 +514,7 @@ def whole_file(rep):
         "mod_generated_after_license": ("// Copyright\n// @generated\n\n" + ugly, ["--config", "format_generated_files=false"], None),
         "mod_generated_doc_comment": ("//! @generated\n" + ugly, ["--config", "format_generated_files=false"], None),
         "mod_generated_between_items": ("fn first() {}\n// @generated\n" + ugly, ["--config", "format_generated_files=false"], None),
+        "mod_generated_on_line_5": ("// Copyright\n// two\n// three\n// four\n  // @generated\n" + ugly, ["--config", "format_generated_files=false"], None),
         "mod_ignore": (ugly, [], 'ignore = ["child.rs"]\n'),
         "mod_decl_skip": (ugly, [], None),
         "mod_decl_skip_in_module_file": (ugly, [], None),
